@@ -146,7 +146,21 @@ CLAIMED['C06'] = dict(
     note=TA + '1 recorded honest session (quick) / 2 (thorough), 1 attacked session, sessions composed sequentially (recorded ones first); framing at byte level is C18; handleIncomingRequest not included.',
     design='6/C06')
 
-NOT_APPLICABLE = {}
+CLAIMED['C20'] = dict(
+    text='Symbolic execution of the restore side (RestoreAccountExport, readExportSecretKeyFile/readExportCBORNode/readExportOrbitDBGroupHeads, restoreAccountKeys, '
+         'ImportAccountKeys) over an archive whose members (0..3 quick / 0..4 thorough) have free kinds, names and bodies: an accepted restore had exactly one file per key, '
+         'imported exactly those keys into a store that held no account, and handed an entry to the DAG only if its bytes hash to the identifier in its name; every refusal rule. '
+         'Restore side only.',
+    note=TA + 'tar reader, io.Copy, cid/multihash, CBOR node decoding and the DAG service are contracts; that go-orbit-db rebuilds the same logs, heads and group state from the DAG, '
+         'and the export side against a live OrbitDB, are NOT claimed (not encodable: see DESIGN 8).',
+    design='6/C20, 8')
+
+NOT_APPLICABLE = {
+    'C08': 'The property quantifies over arrival orders of envelopes and chain-key announcements in MessageStore (processMessageLoop, per-device caches in a map of pointers to '
+           'priority queues, four goroutines around an OrbitDB event bus). The schedule-symbolic BMC of this technique family, as built here, has scalar and channel-pointer shared cells only: '
+           'maps and pointer-linked queues mutated by several goroutines cannot be encoded, and a sequential re-implementation of the loop would check a model, not the code. The parts of C08 '
+           'that are encodable are decided elsewhere: the ratchet under any arrival order and duplication (C02), the queue contracts incl. the lost wake-up (C15), push/log interplay (C14). See DESIGN 8.',
+}
 ALL = ['C%02d' % i for i in range(1, 21)]
 PENDING_REASON = 'no solver-based check registered yet for this property in the current state of /verif (see DESIGN.md section 9)'
 
